@@ -293,3 +293,145 @@ def expand_straightline(cfgnode, expr, depth=3):
                     return expand_straightline(cfgnode, copy.deepcopy(v), depth - 1)
             return node
     return R().visit(copy.deepcopy(expr))
+
+
+# ---------------------------------------------------------------------------
+# format strings: text derived from runtime data must not be used as a %-/format template
+# ---------------------------------------------------------------------------
+def _bindings_reaching(cfgnode, name, limit=600):
+    """(Assign / AugAssign statements) whose binding of ``name`` may reach the node, and whether the entry (parameter /
+    global) may reach it as well"""
+    found, seen, from_entry = [], set(), False
+    stack = [p for p, lab in cfgnode.pred if lab != "exc"]
+    steps = 0
+    while stack:
+        n = stack.pop()
+        if n.id in seen:
+            continue
+        seen.add(n.id)
+        steps += 1
+        if steps > limit:
+            return found, True
+        a = n.ast
+        if n.kind == "stmt" and isinstance(a, ast.Assign) and any(isinstance(t, ast.Name) and t.id == name for t in a.targets):
+            found.append((a, n))
+            continue
+        if n.kind == "stmt" and isinstance(a, ast.AugAssign) and isinstance(a.target, ast.Name) and a.target.id == name:
+            found.append((a, n))
+            continue
+        preds = [p for p, lab in n.pred if lab != "exc"]
+        if not preds:
+            from_entry = True
+        stack.extend(preds)
+    return found, from_entry
+
+
+def classify_template(program, func, cfg, expr, at, depth=0):
+    """'const' (a compile-time constant string), 'tainted' (a string that contains text computed at run time) or
+    'unknown' for an expression used as a format template"""
+    if depth > 8:
+        return "unknown"
+
+    def join(a, b):
+        if "tainted" in (a, b):
+            return "tainted"
+        if a == b:
+            return a
+        return "unknown"
+    e = expr
+    if isinstance(e, ast.Constant):
+        return "const" if isinstance(e.value, str) else "unknown"
+    if isinstance(e, ast.JoinedStr):
+        return "tainted" if any(isinstance(v, ast.FormattedValue) for v in e.values) else "const"
+    if isinstance(e, ast.IfExp):
+        return join(classify_template(program, func, cfg, e.body, at, depth + 1), classify_template(program, func, cfg, e.orelse, at, depth + 1))
+    if isinstance(e, ast.BinOp) and isinstance(e.op, ast.Mod):
+        l = classify_template(program, func, cfg, e.left, at, depth + 1)
+        if l == "unknown":
+            return "unknown"
+        operands = e.right.elts if isinstance(e.right, ast.Tuple) else [e.right]
+        if l == "tainted" or any(not isinstance(o, ast.Constant) for o in operands):
+            return "tainted"
+        return "const"
+    if isinstance(e, ast.BinOp) and isinstance(e.op, ast.Add):
+        l = classify_template(program, func, cfg, e.left, at, depth + 1)
+        r = classify_template(program, func, cfg, e.right, at, depth + 1)
+        if "tainted" in (l, r):
+            return "tainted"
+        if l == "const" and r == "const":
+            return "const"
+        if "const" in (l, r):
+            return "tainted"  # a literal joined with something that is not a literal
+        return "unknown"
+    if isinstance(e, ast.BinOp) and isinstance(e.op, ast.Mult):
+        return classify_template(program, func, cfg, e.left, at, depth + 1)
+    if isinstance(e, ast.Call):
+        f = e.func
+        if isinstance(f, ast.Attribute) and f.attr in ("format", "join", "format_map"):
+            return "tainted"
+        if isinstance(f, ast.Name) and f.id in ("str", "repr", "ascii"):
+            return "tainted"
+        return "unknown"
+    if isinstance(e, ast.Name):
+        binds, from_entry = _bindings_reaching(at, e.id)
+        if not binds:
+            r = program.resolve_name(func.module, e.id) if e.id not in func.params else None
+            if r is not None and r[0] == "const":
+                return classify_template(program, func, cfg, r[1], at, depth + 1)
+            return "unknown"
+        out = None
+        for a, n in binds:
+            if isinstance(a, ast.AugAssign):
+                if not isinstance(a.op, ast.Add):
+                    v = "unknown"
+                else:
+                    prev = classify_template(program, func, cfg, ast.Name(id=e.id, ctx=ast.Load()), n, depth + 1)
+                    add = classify_template(program, func, cfg, a.value, n, depth + 1)
+                    if "tainted" in (prev, add):
+                        v = "tainted"
+                    elif prev == "const" and add == "const":
+                        v = "const"
+                    elif add in ("const",) or prev in ("const",):
+                        v = "tainted"
+                    else:
+                        # unknown += <something>: a string literal inside the addend makes it text by construction
+                        v = "tainted" if any(isinstance(c, ast.Constant) and isinstance(c.value, str) for c in ast.walk(a.value)) else "unknown"
+            else:
+                v = classify_template(program, func, cfg, a.value, n, depth + 1) if len(a.targets) == 1 else "unknown"
+            out = v if out is None else join(out, v)
+        if from_entry:
+            out = join(out, "unknown") if out != "tainted" else out
+        return out
+    return "unknown"
+
+
+def rule_format_templates(ctx, typer, funcs, rule):
+    """every `%`-formatting / str.format template is a constant: text that contains run-time data (a name, a pattern, an
+    attribute value, an already formatted message) is never used as a template, where a '%' or '{' inside it would be
+    interpreted (wrong output, or TypeError/ValueError instead of the specified behaviour)"""
+    n = 0
+    for f in funcs:
+        if f.is_lambda:
+            continue
+        cfg = typer.cfg_of(f)
+        for node in walk_own(f.node):
+            tmpl = None
+            if isinstance(node, ast.BinOp) and isinstance(node.op, ast.Mod):
+                tmpl = node.left
+            elif isinstance(node, ast.Call) and isinstance(node.func, ast.Attribute) and node.func.attr in ("format", "format_map"):
+                tmpl = node.func.value
+            if tmpl is None:
+                continue
+            holders = cfg_nodes_containing(cfg, node)
+            if not holders:
+                continue
+            kinds = {classify_template(ctx.p, f, cfg, tmpl, h) for h in holders}
+            if "tainted" in kinds:
+                n += 1
+                ctx.viol(rule, f, node, "the format template `%s` is built from run-time text (not a constant): a '%%' or '{' in a "
+                         "name/pattern/value is interpreted as a directive - wrong text, or TypeError/ValueError instead of the "
+                         "specified result" % norm(tmpl)[:80])
+            elif "const" in kinds:
+                n += 1
+                ctx.inst(rule, f, node, "constant format template")
+    return n
